@@ -11,7 +11,8 @@ from ..harness import Sub, Violation, run_world
 from ..oracles import globalarr as ga
 
 PROPERTY = "C03"
-HANG_SECONDS = 40.0
+HANG_SECONDS = 60.0
+LINE_BUDGET = 1000000000
 RULE = ("Hypothesis-generated LayoutSwapper configurations (3-D/4-D, extents 2-8, 2-D process grids incl. "
         "p0==p1, p0!=p1 and extents of 1, a 2-D layout group plus 1-3 further groups on p0, p1, [p0,p1] or 1, "
         "any start layout) with histories (1-8 steps, previous destination = next source, spare buffer or "
